@@ -80,6 +80,22 @@ impl S {
     c.append(F("u1", "#[TRACE]\npub unsafe fn u1(p: *const u32) -> u32 { HERE *p + 1 }", [("ptr", '{ let v = 41u32; format!("{:?}", unsafe { M::u1(&v as *const u32) }) }')]))
     c.append(F("f34", "#[TRACE]\npub fn f34(n: u32) -> impl Iterator<Item = u32> { HERE rt::log(\"make\"); (0..n).map(|v| v * 2) }",
                [("4", 'format!("{:?}", M::f34(4).collect::<Vec<_>>())')]))
+    c.append(F("cg", "#[TRACE]\npub fn cg<const N: usize>(a: [u8; N]) -> usize where [u8; N]: Sized { HERE rt::log(format!(\"n{}\", N)); a.iter().map(|x| *x as usize).sum::<usize>() + N }",
+               [("3", 'format!("{:?}", M::cg([1u8, 2, 3]))'), ("0", 'format!("{:?}", M::cg::<0>([]))')]))
+    c.append(F("at", "/// documented\n#[inline]\n#[TRACE]\n#[allow(clippy::all)]\n#[must_use]\npub fn at(x: u32) -> u32 { HERE rt::log(\"attrs\"); x ^ 0x55 }",
+               [("9", 'format!("{:?}", M::at(9))')]))
+    c.append(F("nf", "#[TRACE]\npub fn nf(x: u32) -> u32 { HERE fn inner(y: u32) -> u32 { rt::log(\"inner\"); y + 1 } rt::log(\"outer\"); inner(inner(x)) }",
+               [("1", 'format!("{:?}", M::nf(1))')], traced_names=["nf"]))
+    c.append(F("Bx", """pub struct Bx(pub u32);
+impl Bx {
+    #[TRACE]
+    pub fn boxed(self: Box<Self>, y: u32) -> u32 { HERE rt::log("boxed"); self.0 + y }
+    #[TRACE]
+    pub fn arced(self: std::sync::Arc<Self>, y: u32) -> u32 { HERE rt::log("arced"); self.0 * y }
+}""", [("box+arc", '{ let a = Box::new(M::Bx(2)).boxed(3); let b = std::sync::Arc::new(M::Bx(4)).arced(5); format!("{:?}|{:?}", a, b) }')],
+               traced_names=["boxed", "arced"]))
+    c.append(F("lp", "#[TRACE]\npub fn lp(xs: &[u32]) -> Option<u32> { HERE for (i, x) in xs.iter().enumerate() { if *x == 0 { rt::log(format!(\"zero at {i}\")); return None; } if *x > 100 { break; } } let s: u32 = xs.iter().sum(); Some(s) }",
+               [("[1,2]", 'format!("{:?}", M::lp(&[1, 2]))'), ("[1,0]", 'format!("{:?}", M::lp(&[1, 0]))'), ("[]", 'format!("{:?}", M::lp(&[]))')]))
     # ---- async ----
     c.append(F("a1", "#[TRACE]\npub async fn a1(x: u32) -> u32 { HERE rt::log(\"a\"); rt::Yield(2).await; rt::log(\"b\"); x + 1 }",
                [(str(x), 'format!("{:?}", rt::block_on(M::a1(%du32)))' % x) for x in (0, 9)], is_async=True))
